@@ -60,6 +60,18 @@ class BoundsArray:
             yield self._v[k]
 
 
+def vector_dtype_event(f, arr, z_w=0.37):
+    """the argument vector a calling class hands to an f8(f8,f8[:]) kernel must be a float64 array: any other dtype has no matching
+    compiled definition (TypeError with the JIT on) although the interpreter accepts it"""
+    if isinstance(arr, np.ndarray) and arr.dtype != object and arr.dtype != np.float64:
+        fn = getattr(f, "py_func", f)
+        key = (getattr(fn, "__module__", "?"), getattr(fn, "__name__", "?"))
+        if key in nbmodel.INFO and nbmodel.INFO[key]["sig"] and nbmodel.INFO[key]["sig"][1] == ["f8", "f8[:]"]:
+            return dict(kind="sig", module=key[0], func=key[1], args=[float(z_w), {"array": [x.item() for x in arr], "dtype": str(arr.dtype)}],
+                        detail=f"the calling class passes an argument vector of dtype {arr.dtype}; the kernel is compiled for f8[:] only (no matching definition under the JIT)")
+    return None
+
+
 def run_part(ctx, f, args, name):
     z = ctx.var("z", 0, 1)
     log = []
@@ -224,6 +236,9 @@ def _run(chk, only, static):
                         f = getattr(rsl, part)
                         if f is None:
                             continue
+                        ev = vector_dtype_event(f, rsl.args[part])
+                        if ev is not None:
+                            nbmodel.EVENTS.append(ev)
                         try:
                             out.append((part, len(rsl.args[part])) + run_part(ctx, f, list(rsl.args[part]), part))
                         except (real.NotEncodable, real.Concretised, TypeError, AttributeError) as e:
